@@ -50,6 +50,7 @@ def step2 : Nat := 15     -- [i]               theta_isogeny_comput2
 def evalR : Nat := 16     -- [i]               R pushed through steps[i]
 def loadR : Nat := 17     -- [src]             R = Q[src]
 def split : Nat := 18     -- [i]               splitting_comput on steps[i].codomain
+def dblIterP : Nat := 19  -- [dst, k, src]     points[dst] = [2^k] points[src]  (double_couple_jac_point_iter)
 end EvKind
 
 structure IArr where
